@@ -24,6 +24,9 @@ def run(chk, args):
         {"family": "sam", "ns": "3,4", "count": 10 if q else 80, "length": 14, "reps": "0,1,10"},
         {"family": "float_sa", "ns": "3,4,5", "count": 10 if q else 80, "length": 12},
         {"family": "float_sam", "ns": "3,4", "count": 8 if q else 60, "length": 12, "reps": "1,10"},
+        # player counts beyond 6: 2^n passes 64 (seeds C04-d, C08-d: a 64-bit key over coalitions silently wraps there)
+        {"family": "any", "ns": "7,8", "count": 3 if q else 16, "length": 12},
+        {"family": "sam", "ns": "7", "count": 3 if q else 16, "length": 10, "reps": "0,1,10"},
     ])
     from common_bounds import replay_bounds_behaviours
     replay_bounds_behaviours(chk, "ANY3", {"N": 3, "cls": "ANY", "sing": "m1to1", "slacks": "0to3", "computers": {"sa", "sac", "sam"}, "reps": {0, 1, 2}, "maxchg": 4},
